@@ -548,6 +548,9 @@ def defects(rnd, rows):
             yield "fixed-length-open-below-then-exact", mod(i, 4, "...2, 3"), i
             yield "fixed-length-exact-then-open-above", mod(i, 4, "3, 5..."), i
             yield "fixed-length-two-exact", mod(i, 4, "3, 5"), i
+            yield "fixed-length-two-exact-descending", mod(i, 4, "5, 3"), i
+            yield "fixed-length-three-exact-descending", mod(i, 4, "6, 4, 2"), i
+            yield "fixed-length-exact-between-others", mod(i, 4, "4, 9, 2"), i
             yield "fixed-length-same-number-twice", mod(i, 4, "5, 5"), i
             yield "fixed-length-touching-items", mod(i, 4, "5...5, 5"), i
         ftype = rows[i][5]
